@@ -33,6 +33,10 @@ def scenarios(ctx):
             scs.append({"kind": "NP2.1", "n": 8 if ns != lens[0] else 384, "nshank": 1, "map": "dense", "gain": [0.5, 8192], "w": w,
                         "ns": ns, "seed": seed + 31 + ns, "content": "broadband", "lf_numeric": True, "recon": False,
                         "group": f"np21_{ns}"})
+    # the same converter object re-parameterised (init_params(nwindow=...)) and re-run with overwrite: must give the same LF
+    # as a fresh conversion of the same recording (same group => compared by `post`)
+    for base in [x for x in scs if x["w"] == 1200][:3 if ctx.quick else 8]:
+        scs.append(dict(base, w=2400, reuse_first_w=3612))
     return scs
 
 
